@@ -87,6 +87,9 @@ def depends_on(run, pid, rules=None, only=None):
     """Include the obligations of property `pid` (optionally only some rules / instances) under the rule name
     DEP-<pid>."""
     import importlib
+    if isinstance(run, FilterRun):
+        return          # inside an included check: its own dependencies are reported under other rule names, which the
+                        # including filter drops anyway (and dependencies may be mutual)
     mod = importlib.import_module(f"sa.rules.{pid.lower()}")
     mod.check(FilterRun(run, rules, prefix=f"DEP-{pid}", only=only))
 
@@ -113,6 +116,13 @@ def _imputer(run, prog, cls):
                      f"{ir.show_nl(arg)[:200] if arg else None}")
             continue
         base, overlay = mfm
+        if arg[0] == "new" and arg[2] == "dict" and len(arg[3]) == 2 and arg[3][1][0] == "kw" and arg[3][1][1] == "**":
+            # dict(a, **b) passes the entries of b as keyword arguments: every key of b must be a str
+            run.fail("MERGE", f"{cls.name}.keys-as-keywords", f"{s.path}:{ev.line}", fq, f"model input {ir.show_nl(arg)[:120]}",
+                     "dict(x, **sampled) hands the sampled values over as keyword arguments: feature names that are not "
+                     "strings (int / float names are allowed) raise `TypeError: keywords must be strings`; "
+                     "`{**x, **sampled}` merges any keys")
+            continue
         if not is_copy_of(base, x):
             rev = any(is_copy_of(o, x) for o in strip_gates(overlay))
             run.fail("MERGE", f"{cls.name}.input", f"{s.path}:{ev.line}", fq, f"merge base {ir.show_nl(base)[:120]}",
@@ -294,6 +304,14 @@ def _values(run, prog, cls, s, fq, db, cond, subset, x, n, mctx, mev):
                 if l[0] in ("param", "const") or (l[0] == "res" and l[2] in (".lower", ".strip", ".casefold")) or \
                         (l[0] == "fn" and l[1] == "str"):
                     continue
+                if l[0] == "enum":
+                    if l[4] == "str":
+                        continue            # a str-valued member compares like its value
+                    run.fail("VALUE", f"{name}.strategy", f"{init.path}:{init.fn.lineno}", f"{name}.__init__",
+                             f"self.{fld} = {ir.show_nl(l)[:80]}",
+                             f"self.{fld} holds a member of the enumeration {l[1].rsplit('.', 1)[1]}, which never equals the "
+                             f"string 'joint' it is compared with: the joint strategy is never selected")
+                    return
                 K = prog.find_class(l[2].rsplit(".", 1)[1]) if l[0] == "new" and isinstance(l[2], str) and "." in l[2] else None
                 if K is not None:
                     bases = [str(b) for b in prog.ext_bases(K)]
@@ -453,6 +471,7 @@ _M = "ixai/imputer/marginal_imputer.py"
 _D = "ixai/imputer/default_imputer.py"
 WITNESSES = [
     ("marginal: merge order reversed", [(_M, "{**x_i, **sampled_values}", "{**sampled_values, **x_i}")]),
+    ("marginal: dict(x_i, **sampled) needs str feature names", [(_M, "{**x_i, **sampled_values}", "dict(x_i, **sampled_values)")]),
     ("marginal: keys taken from the instance", [(_M, "for feature_name in feature_subset}", "for feature_name in sampled_instance}")]),
     ("marginal: n_samples + 1 predictions", [(_M, "for _ in range(n_samples):", "for _ in range(n_samples + 1):")]),
     ("marginal: instance updated in place", [(_M, "prediction = self.model_function({**x_i, **sampled_values})", "x_i.update(sampled_values)\n            prediction = self.model_function(x_i)")]),
@@ -471,7 +490,6 @@ WITNESSES = [
     ("tree: conditional imputation", [("ixai/imputer/tree_imputer.py", "                sampled_values[feature_name] = sampled_value\n", "                if sampled_value is not None:\n                    sampled_values[feature_name] = sampled_value\n")]),
 ]
 SILENT = [
-    ("marginal: dict(x_i, **sampled)", [(_M, "{**x_i, **sampled_values}", "dict(x_i, **sampled_values)")]),
     ("marginal: union operator", [(_M, "{**x_i, **sampled_values}", "x_i | sampled_values")]),
     ("marginal: copy then update", [(_M, "prediction = self.model_function({**x_i, **sampled_values})", "x_new = x_i.copy()\n            x_new.update(sampled_values)\n            prediction = self.model_function(x_new)")]),
     ("marginal: list comprehension of predictions", [(_M, "        predictions = []\n        for _ in range(n_samples):\n            sampled_values = self._sample(self.storage_object, feature_subset)\n            prediction = self.model_function({**x_i, **sampled_values})\n            predictions.append(prediction)\n        return predictions\n",
